@@ -115,7 +115,17 @@ func genParam(r *rand.Rand, f32, f64 map[uint64]string) aparam {
 	case 16:
 		p := ptr()
 		t := []string{"chan int", "chan *T"}[r.Intn(2)]
-		return aparam{t, []uint64{p}, fmt.Sprintf("%s(%s)", t, hexp(p))}
+		// directional channels: one word like any channel; fieldToType names them without the direction
+		src := []string{"", "", "<-", "chan<-"}[r.Intn(4)]
+		switch src {
+		case "<-":
+			src = "<-" + t
+		case "chan<-":
+			src = "chan<- " + strings.TrimPrefix(t, "chan ")
+		default:
+			src = t
+		}
+		return aparam{src, []uint64{p}, fmt.Sprintf("%s(%s)", t, hexp(p))}
 	default:
 		p := ptr()
 		return aparam{"func()", []uint64{p}, fmt.Sprintf("func(%s)", hexp(p))}
@@ -126,6 +136,12 @@ func genParam(r *rand.Rand, f32, f64 map[uint64]string) aparam {
 func typeName(t string) string {
 	if strings.HasPrefix(t, "func") {
 		return "func"
+	}
+	if strings.HasPrefix(t, "<-chan ") {
+		return t[2:]
+	}
+	if strings.HasPrefix(t, "chan<- ") {
+		return "chan " + t[7:]
 	}
 	return t
 }
